@@ -48,7 +48,8 @@ class FakeSnowflakeConnection:
         self.schema_set = False
         self.db_path = Path(db_path) if db_path else None
         self.nop_regexes = nop_regexes
-        self._paramstyle = snowflake.connector.paramstyle
+        # the paramstyle of this connection: the connect argument if given, else the module's at connect time
+        self._paramstyle = kwargs.get("paramstyle") or snowflake.connector.paramstyle
         self.variables = Variables()
 
         # create database if needed
